@@ -989,3 +989,163 @@ func ruleCOMMENTLINE(c *Ctx) {
 	}
 	c.Bad(rule, key, f.Pos(), "the constant text of a lexer pattern becomes Symbol.Comment without a line-break test: for /\\nabc/ the generated token file contains `NL //` followed by a line `abc`, a stray enum constant that shifts the values of all following tokens")
 }
+
+// GUARD(next-element): inside `for i, x := range s`, a look at the next element s[i+1] is in
+// range only after `i+1 < bound`; `i < bound` is always true there and lets the last iteration
+// index one past the end (a panic inside Compile for grammars whose last nonterminal belongs to a
+// template group). Every s[i+1] (and name[i+1]) in a loop over the same sequence is governed by
+// a comparison whose left side is that very i+1.
+func ruleNEXTELEMENT(c *Ctx, pkgs ...string) {
+	const rule = "GUARD(next-element)"
+	n := 0
+	for _, rel := range pkgs {
+		for _, f := range c.SrcFuncs(rel) {
+			ord := map[string]int{}
+			for _, b := range f.Blocks {
+				for _, ins := range b.Instrs {
+					var idx ssa.Value
+					var base ssa.Value
+					switch x := ins.(type) {
+					case *ssa.IndexAddr:
+						idx, base = x.Index, x.X
+					case *ssa.Index:
+						idx, base = x.Index, x.X
+					case *ssa.Lookup:
+						if _, isMap := x.X.Type().Underlying().(*types.Map); !isMap {
+							idx, base = x.Index, x.X // string indexing
+						}
+					}
+					if idx == nil {
+						continue
+					}
+					bo, ok := idx.(*ssa.BinOp)
+					if !ok || bo.Op != token.ADD {
+						continue
+					}
+					if k, ok := bo.Y.(*ssa.Const); !ok || k.Value == nil || k.Int64() != 1 {
+						continue
+					}
+					// bo.X is the counter of a range loop: (φ#rangeindex + 1)
+					inner, ok := bo.X.(*ssa.BinOp)
+					if !ok || inner.Op != token.ADD {
+						continue
+					}
+					phi, ok := inner.X.(*ssa.Phi)
+					if !ok || phi.Comment != "rangeindex" {
+						continue
+					}
+					n++
+					key := ordKey(ord, ssaFuncKey(f)+":"+normalizePhi(vpath(base))+"[i+1]")
+					guarded := false
+					for _, g := range flattenConds(governing(b)) {
+						l, op, _, ok := cmpNormV(g.V, g.Pol)
+						if ok && op == "<" && (l == idx || vpath(l) == vpath(idx)) {
+							guarded = true
+						}
+					}
+					if guarded {
+						c.Ok(rule, key, ins.Pos(), "the look at the next element is governed by i+1 < bound")
+					} else {
+						c.Bad(rule, key, ins.Pos(), "%s is indexed with i+1 inside a range loop without a governing `i+1 < bound`: the last iteration reads one past the end and panics", normalizePhi(vpath(base)))
+					}
+				}
+			}
+		}
+	}
+	if n < 1 {
+		c.add(rule, "count:", token.NoPos, CountDropped, true, "only %d next-element accesses found (Expand's m.Nonterms[i+1] confirmed by hand)", n)
+	}
+}
+
+// SENTINEL(remap-absent): ActionVars.Remap maps a position of the original rule to a stack slot
+// of one expansion; positions of symbols that are absent from the expansion have no entry, and
+// slot 0 is a real slot. A lookup whose key is not known to be present (not taken from the
+// `active` list, which is filled under a successful lookup) must use the comma-ok form, so that
+// "absent" becomes -1 (rendered as nil / -1) and not "the first symbol of the rule".
+func ruleREMAPABSENT(c *Ctx) {
+	const rule = "SENTINEL(remap-absent)"
+	n := 0
+	for _, rel := range []string{"grammar", "gen"} {
+		for _, f := range c.SrcFuncs(rel) {
+			ord := map[string]int{}
+			for _, b := range f.Blocks {
+				for _, ins := range b.Instrs {
+					lk, ok := ins.(*ssa.Lookup)
+					if !ok || !strings.HasSuffix(vpath(lk.X), ".Remap") {
+						continue
+					}
+					n++
+					key := ordKey(ord, ssaFuncKey(f)+":Remap")
+					if lk.CommaOk {
+						c.Ok(rule, key, lk.Pos(), "comma-ok lookup: absence is distinguishable from slot 0")
+						continue
+					}
+					// key taken from a local list of positions known to be present
+					fromList := false
+					if u, ok := lk.Index.(*ssa.UnOp); ok && u.Op == token.MUL {
+						if ia, ok := u.X.(*ssa.IndexAddr); ok {
+							switch ia.X.(type) {
+							case *ssa.Phi, *ssa.Call, *ssa.Slice:
+								fromList = true
+							}
+						}
+					}
+					if fromList {
+						c.Ok(rule, key, lk.Pos(), "the key comes from the list of positions that passed a comma-ok lookup")
+					} else {
+						c.Bad(rule, key, lk.Pos(), "Remap[%s] is read without the comma-ok form: a position that is absent from this expansion yields slot 0, so a reference to an absent optional symbol reads the first symbol of the rule (with the absent symbol's type)", normalizePhi(vpath(lk.Index)))
+					}
+				}
+			}
+		}
+	}
+	if n < 4 {
+		c.add(rule, "count:", token.NoPos, CountDropped, true, "only %d lookups in ActionVars.Remap found (5 in ActionVars.resolve confirmed by hand)", n)
+	}
+}
+
+// PAIR(pop-propagation): an rhsRule carries two things that make symbols addressable from a
+// semantic action: names (name -> positions) and argRefs. When a nested group is finished,
+// popRule hands both to the enclosing rule - argRefs by append, names by copying every entry
+// into the parent's map (pushName fills only the *top-level* rule's names directly). Without the
+// names copy an action written inside a group cannot name a symbol of a deeper group: the
+// compiler accepts the grammar and generation fails with `invalid reference`.
+func rulePOPRULE(c *Ctx) {
+	const rule = "PAIR(pop-propagation)"
+	key := "compiler.syntaxLoader.popRule"
+	f := c.SSAFunc("compiler", "(*syntaxLoader).popRule")
+	if f == nil {
+		c.Lost(rule, key, "function not found")
+		return
+	}
+	loops := naturalLoops(f)
+	argRefs, names := false, false
+	var pos token.Pos = f.Pos()
+	for _, b := range f.Blocks {
+		for _, ins := range b.Instrs {
+			switch x := ins.(type) {
+			case *ssa.Store:
+				if fa, ok := x.Addr.(*ssa.FieldAddr); ok && fieldName(fa.X.Type(), fa.Field) == "argRefs" {
+					if call, ok := x.Val.(*ssa.Call); ok {
+						if bi, ok := call.Call.Value.(*ssa.Builtin); ok && bi.Name() == "append" {
+							argRefs = true
+							pos = x.Pos()
+						}
+					}
+				}
+			case *ssa.MapUpdate:
+				if strings.HasSuffix(vpath(x.Map), ".names") && innermostLoop(loops, b) != nil {
+					names = true
+				}
+			}
+		}
+	}
+	switch {
+	case !argRefs:
+		c.Lost(rule, key, "popRule no longer appends the nested rule's argRefs to its parent: restate the rule")
+	case names:
+		c.Ok(rule, key, pos, "popRule hands both the argRefs and the names of a finished nested group to the enclosing rule")
+	default:
+		c.Bad(rule, key, pos, "popRule appends the nested group's argRefs to the enclosing rule but does not copy its names: an action inside a group cannot refer by name to a symbol of a deeper group (generation fails with `invalid reference`)")
+	}
+}
